@@ -22,6 +22,7 @@ def run(ctx):
     stream.tee_writer(ctx, P)
     stream.fill_loops(ctx, P)
     stream.interrupted_safe_fill(ctx, P)
+    stream.partial_buffer_verdicts(ctx, P)
     stream.zero_means_end(ctx, P)
     # every consumer path of Message ends through the trailing-data check (read / read_to_end / fill_buf agree)
     from rules import c03
